@@ -181,4 +181,4 @@ def empty(slice_i, n):
         yield {"model": spec, "points": None, "forms": [0, 4, 1, 5, 2, 3], "ov": []}
 
 def parts(tier):
-    return [Part("scale", strategy=lambda t: __import__("vf.strategies", fromlist=["x"]).scale_case(allow_const=True).map(lambda c: dict(c, forms=[0, 4, 1, 2], ov=[])), check=check, quick=(2, 40), thorough=(4, 600)), Part("shared_depths", enumerate_cases=(lambda t: ({"model": s_, "points": None, "forms": [0, 4, 1, 5, 2, 3], "ov": []} for s_ in __import__("vf.strategies", fromlist=["x"]).shared_depth_shapes())), check=check, time_quick=120.0), Part("adversarial_valid", strategy=lambda t: __import__("vf.props.c01", fromlist=["x"])._adversarial(t).map(lambda c_: dict(c_, forms=[0, 4, 1, 5, 2, 3], ov=[])), check=check, quick=(2, 400), thorough=(4, 4000)), Part("empty0", enumerate_cases=(lambda t: empty(0, 1)), check=check, time_quick=120.0), Part("wide_nodes", strategy=lambda t: __import__("vf.strategies", fromlist=["x"]).wide_case(allow_const=True).map(lambda c: dict(c, forms=[0, 4, 1, 2], ov=[])), check=check, quick=(2, 150), thorough=(4, 2000))] + [Part("class_twins", strategy=lambda t: __import__("vf.strategies", fromlist=["x"]).class_twin_spec().map(lambda s_: {"model": s_, "points": None, "forms": [0, 4, 1, 5, 2, 3], "ov": []}), check=check, quick=(1, 300), thorough=(2, 3000))] + [Part("mixed%d" % i, enumerate_cases=(lambda t, i=i: mixed(i, 8)), check=check, time_quick=150.0) for i in range(8)] + [Part("shapes%d" % i, enumerate_cases=(lambda t, i=i: shapes(i, 4)), check=check, time_quick=120.0) for i in range(4)] + [Part("evaluate", strategy=lambda t: case_strategy(t), check=check, quick=(8, 200), thorough=(16, 1500))]
+    return [Part("wide_thresholds", enumerate_cases=(lambda t: (dict(c_, forms=[0, 4, 1, 2], ov=[]) for c_ in __import__("vf.strategies", fromlist=["x"]).wide_threshold_cases())), check=check, time_quick=200.0), Part("scale", strategy=lambda t: __import__("vf.strategies", fromlist=["x"]).scale_case(allow_const=True).map(lambda c: dict(c, forms=[0, 4, 1, 2], ov=[])), check=check, quick=(2, 40), thorough=(4, 600)), Part("shared_depths", enumerate_cases=(lambda t: ({"model": s_, "points": None, "forms": [0, 4, 1, 5, 2, 3], "ov": []} for s_ in __import__("vf.strategies", fromlist=["x"]).shared_depth_shapes())), check=check, time_quick=120.0), Part("adversarial_valid", strategy=lambda t: __import__("vf.props.c01", fromlist=["x"])._adversarial(t).map(lambda c_: dict(c_, forms=[0, 4, 1, 5, 2, 3], ov=[])), check=check, quick=(2, 400), thorough=(4, 4000)), Part("empty0", enumerate_cases=(lambda t: empty(0, 1)), check=check, time_quick=120.0), Part("wide_nodes", strategy=lambda t: __import__("vf.strategies", fromlist=["x"]).wide_case(allow_const=True).map(lambda c: dict(c, forms=[0, 4, 1, 2], ov=[])), check=check, quick=(2, 150), thorough=(4, 2000))] + [Part("class_twins", strategy=lambda t: __import__("vf.strategies", fromlist=["x"]).class_twin_spec().map(lambda s_: {"model": s_, "points": None, "forms": [0, 4, 1, 5, 2, 3], "ov": []}), check=check, quick=(1, 300), thorough=(2, 3000))] + [Part("mixed%d" % i, enumerate_cases=(lambda t, i=i: mixed(i, 8)), check=check, time_quick=150.0) for i in range(8)] + [Part("shapes%d" % i, enumerate_cases=(lambda t, i=i: shapes(i, 4)), check=check, time_quick=120.0) for i in range(4)] + [Part("evaluate", strategy=lambda t: case_strategy(t), check=check, quick=(8, 200), thorough=(16, 1500))]
